@@ -57,21 +57,28 @@ UNREACHABLE_HERE = _keys("Eventual", {"acq0": ["waiting", "woken"], "acq1": ["wa
 
 
 def scenario_params(rng):
+    """One program.  Dimensions: object kind and size (buffer bytes / compartments incl. 0 and 1), callers of the three
+    kinds, surplus sets, waiters / testers (lock-free future testers may poll until ready), phases separated by a reset,
+    a reset concurrent with the sets of a phase (futures: y&4), and who frees the object and when (main at the end, or
+    the waiter of the last phase as soon as its wait returned: y&8)."""
     nes = 1 + rng.below(3)
     phases = 1 + rng.below(3)
     ext = 10 * rng.below(6)
     task = 10 * rng.below(5)
+    special = [0, 0, 0, 4, 8][rng.below(5)]
+    if special:
+        nes = 2 + rng.below(2)
     if rng.below(2) == 0:
         nbytes = [8, 8, 16, 0][rng.below(4)]
         nset = 1 + rng.below(3)
         nwait = rng.below(4)
         ntest = rng.below(3)
-        return ["ev", nes, phases, nset, nwait, ntest, nbytes, ext, task, rng.below(2)]
+        return ["ev", nes, phases, nset, nwait, ntest, nbytes, ext, task, rng.below(2) | (special & 8)]
     n = [0, 1, 2, 5, 2, 1, 3][rng.below(7)]
     extra = rng.below(3)
     nwait = rng.below(4)
     ntest = rng.below(3)
-    y = rng.below(2) | (2 if rng.below(6) == 0 else 0)
+    y = rng.below(2) | (2 if rng.below(6) == 0 else 0) | special
     return ["fut", nes, phases, extra, nwait, ntest, n, ext, task, y]
 
 
